@@ -1,7 +1,7 @@
 --------------------------- MODULE Heartbeat_Trace ---------------------------
 (* Trace validation for C26.  Events of one run of the real ConnectionHeartbeat under virtual time:
      start {t, rate}   req {t, out, dur}   pending {t} (request sent, never answered)   lost {t}
-     end {alive, lost}  (final observation: task alive?, number of on_failure calls) *)
+     end {alive, lost}  (final observation: task alive?, number of on_failure calls)   afterstop {n} (requests sent after stop()) *)
 EXTENDS Integers, Sequences, Json, IOUtils, TLC
 Traces == ndJsonDeserialize(IOEnv.TRACE_FILE)
 Rate == Traces[1][1].rate      \* all traces of a batch come from the same code, hence the same period
@@ -18,6 +18,8 @@ Step ==
      \/ /\ Ev.ev = "lost" /\ seenlost' = seenlost + 1 /\ lost = seenlost + 1     \* on_failure only after the spec declared the loss
         /\ UNCHANGED <<alive, fails, lost, due, hist>>
      \/ /\ Ev.ev = "end" /\ Ev.lost = lost /\ seenlost = lost /\ (Ev.alive = 1) = alive
+        /\ UNCHANGED <<alive, fails, lost, due, hist, seenlost>>
+     \/ /\ Ev.ev = "afterstop" /\ Ev.n = 0                 \* stop() ends the heartbeat: no request in the three periods after it
         /\ UNCHANGED <<alive, fails, lost, due, hist, seenlost>>
 TSpec == TInit /\ [][Step]_vars
 Mark == /\ TLCSet(2, [TLCGet(2) EXCEPT ![tid] = IF @ < l THEN l ELSE @])
